@@ -123,11 +123,13 @@ def main():
             verdict = f"missed (exit {own.get('exit')}) in {own.get('wall_s')} s"
         lines.append(f"| {sid} | {r['property']} | {r.get('demo_clean_exit')} / {r.get('demo_patched_exit')} | {verdict} | {others or '-'} | "
                      f"{r['summary'].replace('|', '/')[:160]} |")
-    lines += ["", "Note: c05a1, c05a3, c05b1, c05c1 and c05d1 were written against /repo before fix 61cb2d2 (F3). They cut short how the typer",
+    lines += ["", "Note: c05a1, c05a3, c05b1, c05c1, c05d1 and c17c2 were written against /repo before fix 61cb2d2 (F3). They cut short how the typer",
               "propagates *failure* (or share supports between guard / non-guard conditions); the repaired typer re-evaluates every unconditional",
               "assignment after the fixed point and thereby re-propagates failure, and guarded programs with so small a budget are refused,",
               "so with these patches applied to the current tree the demonstrations pass and no out-of-type value could be found.",
-              "Against the tree they were written for, all five were caught (runs recorded in DESIGN.md §12)."]
+              "Against the tree they were written for, all six were caught (runs recorded in DESIGN.md §12).",
+              "c17c3 was re-written against the current tree after fix 11b186a (F16) changed the line it edits (original kept next to it).",
+              "c20h2 is not caught: C20 has no sessions for the two synthesis actions it changes (DESIGN.md §12, round 7)."]
     if False:
         pass
     open(os.path.join(sdir, "README.md"), "w").write("\n".join(lines) + "\n")
